@@ -47,6 +47,11 @@ def vec_scenario(k, plan, exe, root, which):
     other = gen_vector(r)[:5]
     if which == 'environ':
         vec = [v.replace(b'=', b'-') for v in vec]
+        # entries as real environments contain them, incl. the shapes a shell or cmd.exe passes on: no '=', several '=', an empty name,
+        # hidden per-drive entries ("=C:=C:\\dir"), an empty value
+        odd = [b'=C:=C:\\dir', b'=', b'=x', b'NOEQ', b'A=B=C', b'=::=::\\', b'EMPTY=', b'=D:=D:\\', b'PATH=/usr/bin:/bin', b'=ExitCode=00000000']
+        for o in r.sample(odd, r.randint(0, 4)):
+            vec.insert(r.randint(0, len(vec)), o)
     g = wasih.Guest(plan, 4096)
     args, envs = (vec, other) if which == 'args' else (other, vec)
     g.instantiate(args=args, envs=envs)
